@@ -125,6 +125,7 @@ RULE_GROUPS: Dict[str, Callable] = {
     'hz.atomic_exclusive_save': hz.rule_atomic_exclusive_save,
     'hz.recurrent_ready_covers_outside_inputs': hz.rule_recurrent_ready_covers_outside_inputs,
     'hz.generated_default_and_stub': hz.rule_generated_default_and_stub,
+    'hz.pool_fetch_outside_retry': hz.rule_pool_fetch_outside_retry,
     'hy.context_propagated': hy.rule_context_propagated,
     'hy.pool_replaceable': hy.rule_pool_replaceable,
     'hy.fork_context': hy.rule_fork_context,
@@ -205,6 +206,7 @@ RULES: Dict[str, Tuple[str, str]] = {
     'RD-10': ('hz.recurrent_ready_covers_outside_inputs', 'in a recurrent scope readiness waits for outside parameter sources that have no result'),
     'BN-5': ('hz.generated_default_and_stub', 'get_default of a build_node node receives dependencies_default'),
     'VL-12': ('hz.generated_default_and_stub', 'a class without a run method of its own is rejected although a base class provides a stub'),
+    'EX-11': ('hz.pool_fetch_outside_retry', 'the pool is not fetched inside the protected region of the retry loop'),
     'EX-8': ('hy.context_propagated', 'a body sent to the thread pool runs in a copy of the caller\'s contextvars context'),
     'EX-9': ('hy.pool_replaceable', 'a pool that is_ready() rejects can be replaced by registering a new one'),
     'EX-10': ('hy.fork_context', 'the process pool created by the engine does not fork its multi-threaded process'),
@@ -686,7 +688,7 @@ _add('C05', 'ER-9')
 _add('C14', 'ER-9')
 _add('C02', 'RT-9')
 _add('C08', 'EX-9', 'EX-10', 'SH-8', 'BN-4')
-_add('C17', 'EX-8', 'EX-9', 'EX-10')
+_add('C17', 'EX-8', 'EX-9', 'EX-10', 'EX-11')
 _add('C18', 'FS-6', 'FS-7')
 _add('C19', 'AS-5', 'AS-6')
 _add('C06', 'CC-9', 'CC-10', 'CC-11')
